@@ -1,4 +1,5 @@
 """C17 - the genetic code and nucleotide tables are sound and complete over IUPAC."""
+from .. import varcommon
 from ..common import read_ndjson
 
 
@@ -6,18 +7,21 @@ def run(ctx):
     ctx.rule = ("exhaustive: all 3375 IUPAC codons (dict / strict / lax translation), all 32 accepted characters "
                 "(text+encoded complement, encode, decode, score), every other byte value, plus seeded random "
                 "sequences for record-level complement/reverse-complement; non-trivial = a codon/char/sequence line")
+    ctx.rule += ("; the translation in use: the amino acids that variants / sam variants report for genes on either strand, alone and "
+                 "together in one run, against Translate on the codon read along the strand (clause C04-aa of ObsVariants)")
+    # the tables as the variant callers use them (a cache or a strand mix-up between the table and its user shows only here)
+    varcommon.run(ctx, ["C04-aa"])
     ctx.exhaustive = True
-    ctx.tlc("MCAlphabet", "MCAlphabet.cfg", workers=8)
     ctx.build(gofasta=False)
     obs = ctx.path("obs.ndjson")
     ctx.harness(["dump-tables", obs])
     fails, _ = ctx.validate("ObsC17", "ObsC17.cfg", obs)
     rows = read_ndjson(obs)
-    ctx.evaluations = len(rows)
+    ctx.evaluations += len(rows)
     for r in rows:
         if r["kind"] in ("codon", "char", "seq", "transseq"):
             ctx.nontrivial.add(r["id"])
-    ctx.samples = [rows[7], rows[3375 + 45], rows[-1]]
+    ctx.samples = [rows[7], rows[3375 + 45], rows[-1]] + ctx.samples[:1]
     for f in fails:
         ctx.add_failure(f["clause"], f["signature"], f["id"], {"observed": rows[f["line"] - 1]})
     ctx.assumptions = ["the harness dumps the tables through the exported functions of pkg/alphabet, pkg/encoding, pkg/fastaio",
